@@ -12,7 +12,7 @@ the measure did not exist and the function diverged for unaligned layouts.)
 """
 import ast
 import z3
-from vf.pyvc.engine import Exec, Path, SymObj, Opaque, NONE, Raised, Empty, find_def, pow2, clog2, POW2_AXIOMS, CLOG2_AXIOMS, Unsupported
+from vf.pyvc.engine import Exec, Path, SymObj, Opaque, NONE, Raised, Empty, Tup, find_def, pow2, clog2, POW2_AXIOMS, CLOG2_AXIOMS, Unsupported
 from vf.pyvc.driver import FnVerifier
 
 FILE = "amaranth_soc/csr/bus.py"
@@ -104,6 +104,154 @@ def verify_prepare_terminates():
         if o.kind == "raise":
             fv.add("raises-only-ValueError", f"path{k}", o.path.pc, z3.BoolVal(o.exc == "ValueError"))
     fv.add_engine_obligations(ex)
+    return fv
+
+
+def verify_prepare_population():
+    """C04 / C05 (L1 part): WHAT prepare() records, for any set of register ranges (one arbitrary iteration of each loop):
+      scanning loops   for one arbitrary register range R of the sorted ranges and one arbitrary address A of R: either R is appended - once -
+                       to the list kept under decode_address(A, R) (the method called with the loop's own A and R), and `balanced` is left
+                       as it was; or `balanced` is set to False (never back to True) and nothing is appended.  Hence: if `balanced` still
+                       holds after the loops, EVERY address of EVERY register is recorded under the offset it decodes to.
+      balanced branch  for one arbitrary (offset, registers) item of the table: ONE Chunk(self, offset, registers) is built from exactly
+                       these and stored under that offset; no early exit - every recorded offset gets its chunk
+    Together with the statement contract of Multiplexer.elaborate (mux_l1: per (chunk, register) pair) and the hash lemma (an address of R
+    decodes to one offset), every address of every register is served by exactly one Case."""
+    fv = FnVerifier("csr.bus.Multiplexer._Shadow.prepare[population]", AX)
+    fn = find_def(FILE, "Multiplexer._Shadow.prepare")
+    n_scan = n_items = 0
+    for ov_case in ("none", "int"):
+        ex = Exec(FILE, "Multiplexer._Shadow", axioms=AX)
+        ex.class_files = {"Multiplexer._Shadow": FILE}
+        size0, maxstop, OV = z3.Ints("size0 max_stop overlaps")
+        self_ = SymObj("Multiplexer._Shadow", "self")
+        ranges = SymObj("set", "self._ranges")
+        self_.init_fields.update({"_size": size0, "_ranges": ranges, "overlaps": NONE if ov_case == "none" else OV, "name": Opaque("name"), "_chunks": NONE})
+        ex.isinstance_hook = lambda v, ty, node: (z3.BoolVal(False) if (v is ranges and ty == "frozenset") else None)
+        R = SymObj("range", "one register range")
+        A, OFF = z3.Ints("chunk_addr decoded_offset")
+        CO = z3.Int("item_offset")
+        CR = SymObj("list", "the ranges recorded under item_offset")
+        chunk_obj = SymObj("Chunk", "the chunk")
+
+        class ListModel:
+            def __init__(self, key):
+                self.key = key
+
+            def length(self, ex_, recv, q_, node):
+                return z3.FreshInt("len")
+
+            def call_append(self, ex_, recv, a, kw, q_, node):
+                q_.ghost["appended"] = q_.ghost.get("appended", ()) + ((self.key, a[0] if a else None),)
+                return [(NONE, q_)]
+
+        class TableModel:
+            def getitem(self, ex_, recv, key, q_, node):
+                return [(SymObj("list", "registers[...]", model=ListModel(key)), q_)]
+
+            def call_items(self, ex_, recv, a, kw, q_, node):
+                return [(("items-of-registers",), q_)]
+        table = SymObj("defaultdict", "registers", model=TableModel())
+        ex.contracts["defaultdict"] = lambda e_, r, a, k, q_, n: [(table, q_)]
+        ex.contracts["sorted"] = lambda e_, r, a, k, q_, n: [(("sorted", ranges), q_)]
+        ex.contracts["frozenset"] = lambda e_, r, a, k, q_, n: [(Opaque("frozenset(ranges)"), q_)]
+
+        class ChunksModel:
+            def setitem(self, ex_, recv, key, v, q_, node):
+                q_.ghost["chunks_set"] = q_.ghost.get("chunks_set", ()) + ((key, v),)
+                return [("fall", None, q_)]
+        chunks_tbl = SymObj("dict", "self._chunks", model=ChunksModel())
+        ex.contracts["dict"] = lambda e_, r, a, k, q_, n: [(chunks_tbl, q_)]
+
+        def c_chunk(e_, r, a, k, q_, n):
+            q_.ghost["chunk_built"] = q_.ghost.get("chunk_built", ()) + ((tuple(a), dict(k)),)
+            return [(chunk_obj, q_)]
+        ex.contracts["Multiplexer._Shadow.Chunk"] = c_chunk
+
+        def c_decode(e_, recv, a, k, q_, n):
+            q_.ghost["decoded"] = q_.ghost.get("decoded", ()) + ((tuple(a), dict(k)),)
+            return [(OFF, q_)]
+        ex.contracts["self.decode_address"] = c_decode
+        ex.contracts["max"] = lambda e_, r, a, k, q_, n: [(maxstop, q_)]
+        ex.b_len = lambda args, kwargs, q_, e: [(z3.FreshInt("len"), q_)]
+        ex.contracts["self.prepare"] = lambda e_, recv, a, k, q_, n: [(NONE, q_)]
+        orig = ex.e_Call
+
+        def e_call(e, p, orig=orig, ex=ex):
+            if isinstance(e.func, ast.Name) and e.func.id in ("sorted", "max"):
+                return ex.contracts[e.func.id](ex, None, [], {}, p, e)
+            return orig(e, p)
+        ex.e_Call = e_call
+        marks = {"scan": [], "items": []}
+
+        def loop(ex_, st_node, path, marks=marks):
+            it = ast.unparse(st_node.iter)
+            if it == "ranges":
+                # outer scanning loop: one arbitrary range; what the inner loop did is recorded by the inner handler
+                for kind, _, q2 in ex_.assign(st_node.target, R, path.fork(), st_node):
+                    for kind2, val2, q3 in ex_.block(st_node.body, q2):
+                        if kind2 not in ("fall", "continue"):
+                            ex_.oblige("every-range-is-visited:no-exit-from-the-outer-loop", q3, z3.BoolVal(False), st_node)
+                after = path
+                after.env = dict(after.env); after.env["balanced"] = z3.FreshBool("balanced_after_the_scan")
+                return [("fall", None, after)]
+            if it == "reg_range":
+                src = path.env.get("reg_range")
+                ex_.oblige("inner-loop-runs-over-the-range-of-the-outer-loop", path, z3.BoolVal(src is R), st_node)
+                entry_bal = path.env.get("balanced")
+                base = len(path.ghost.get("appended", ()))
+                for kind, _, q2 in ex_.assign(st_node.target, A, path.fork(), st_node):
+                    for kind2, val2, q3 in ex_.block(st_node.body, q2):
+                        marks["scan"].append((kind2, q3, entry_bal, base))
+                after = path
+                after.env = dict(after.env); after.env["balanced"] = z3.FreshBool("balanced")
+                return [("fall", None, after)]
+            if it == "registers.items()":
+                base = len(path.ghost.get("chunks_set", ()))
+                for kind, _, q2 in ex_.assign(st_node.target, Tup((CO, CR)), path.fork(), st_node):
+                    for kind2, val2, q3 in ex_.block(st_node.body, q2):
+                        marks["items"].append((kind2, q3, base))
+                return [("fall", None, path)]
+            ex_.unsupported(st_node, f"loop over {it}")
+
+        class _Every(dict):
+            def get(self, key, default=None):
+                return loop
+        ex.loop_invariants = _Every()
+        q = Path(pc=[size0 >= 1, maxstop >= 1, OV >= 0])
+        q.env["self"] = self_
+        outs = ex.run(fn, q)
+        fv.paths += len(outs)
+        for k, (kind, q3, entry_bal, base) in enumerate(marks["scan"]):
+            lab = f"{ov_case}:scan{k}"
+            n_scan += 1
+            app = q3.ghost.get("appended", ())[base:]
+            dec = q3.ghost.get("decoded", ())
+            bal = q3.env.get("balanced")
+            if kind in ("fall", "continue"):
+                ok = (len(app) == 1 and app[0][1] is R and isinstance(app[0][0], z3.ExprRef) and app[0][0].eq(OFF)
+                      and len(dec) >= 1 and all(d[0][1:] == (R,) and isinstance(d[0][0], z3.ExprRef) and d[0][0].eq(A) and not d[1] for d in dec))
+                fv.add("an-address-that-is-not-given-up-on-is-recorded-once-under-the-offset-it-decodes-to", lab, q3.pc, z3.BoolVal(bool(ok)))
+                fv.add("recording-leaves-balanced-as-it-was", lab, q3.pc, z3.BoolVal(bal is entry_bal))
+            elif kind == "break":
+                fv.add("giving-up-sets-balanced-to-False-and-records-nothing", lab, q3.pc,
+                       z3.And(z3.BoolVal(not app), z3.Not(bal) if isinstance(bal, z3.BoolRef) else z3.BoolVal(False)))
+            else:
+                fv.add("scan-iteration-ends-by-recording-or-giving-up", lab, q3.pc, z3.BoolVal(False))
+        for k, (kind, q3, base) in enumerate(marks["items"]):
+            lab = f"{ov_case}:item{k}"
+            n_items += 1
+            built = q3.ghost.get("chunk_built", ())
+            st = q3.ghost.get("chunks_set", ())[base:]
+            ok_kind = kind in ("fall", "continue")
+            fv.add("every-recorded-offset-gets-its-chunk:no-early-exit", lab, q3.pc, z3.BoolVal(ok_kind))
+            ok_b = len(built) == 1 and not built[0][1] and len(built[0][0]) == 3 and built[0][0][0] is self_ and \
+                isinstance(built[0][0][1], z3.ExprRef) and built[0][0][1].eq(CO) and built[0][0][2] is CR
+            fv.add("one-chunk-built-from-exactly-this-offset-and-these-registers", lab, q3.pc, z3.BoolVal(bool(ok_b)))
+            ok_s = len(st) == 1 and isinstance(st[0][0], z3.ExprRef) and st[0][0].eq(CO) and st[0][1] is chunk_obj
+            fv.add("stored-under-that-offset", lab, q3.pc, z3.BoolVal(bool(ok_s)))
+        fv.add_engine_obligations(ex)
+    fv.add("cover:a-recording-and-a-giving-up-iteration-and-a-chunk-item", "vacuity", [], z3.BoolVal(n_scan >= 4 and n_items >= 2))
     return fv
 
 
